@@ -50,7 +50,7 @@ type interp struct {
 	quiet     bool // execute without emitting correspondence lines (probes outside the model's domain)
 }
 
-func (it *interp) input() string           { return strings.Join(it.lines, "\n") }
+func (it *interp) input() string { return strings.Join(it.lines, "\n") }
 func (it *interp) fail(sig, detail string) {
 	if !it.mute {
 		run.IOFail(sig, it.input(), detail)
